@@ -1,0 +1,9 @@
+//go:build verif
+
+package lisp
+
+// ResetStepperFlags puts the debugger's process-wide flags back to their initial state, so that the
+// verification harness can start every scripted Stepper run from the same state (build tag verif only).
+func ResetStepperFlags() {
+	skip, outing1, outing2 = false, false, false
+}
